@@ -210,10 +210,13 @@ fn k17_recv_credit() {
     c0.buffer = any_ring::<4>();
     let mut c1 = Connection::new(a, 9, 4);
     c1.buffer = any_ring::<4>();
-    c1.info.fwd_cnt = kani::any();
-    kani::assume(c1.info.fwd_cnt <= u32::MAX - 4);
+    // fwd_cnt is private to vsock.rs: it is set and observed through the public `done_forwarding` / `==`
+    let fwd0: u32 = kani::any();
+    kani::assume(fwd0 <= u32::MAX - 4);
+    c1.info.done_forwarding(fwd0 as usize);
     c1.established = true;
-    let fwd0 = c1.info.fwd_cnt;
+    let info0 = c1.info.clone();
+    let other0 = c0.info.clone();
     let used0 = c1.buffer.used();
     let (o_start, o_used) = (c0.buffer.start, c0.buffer.used);
     let mut model = [0u8; 4];
@@ -238,10 +241,13 @@ fn k17_recv_credit() {
     }
     assert!(m.connections.len() == 2, "C18: recv removed a connection that was not shut down");
     let c = &m.connections[1];
-    assert!(c.info.fwd_cnt == fwd0 + n as u32, "C17: fwd_cnt not advanced by exactly the bytes handed to the client");
+    let mut want = info0.clone();
+    want.done_forwarding(n);
+    assert!(c.info == want, "C17: fwd_cnt not advanced by exactly the bytes handed to the client (or other credit state changed)");
     assert!(c.info.buf_alloc == 4 && c.buffer.buffer.len() == 4, "C17: advertised allocation no longer equals the buffer capacity");
     assert!(c.buffer.used() == used0 - n && c.buffer.free() == 4 - (used0 - n), "C17: advertised credit is not backed by free space");
     let o = &m.connections[0];
-    assert!(o.buffer.start == o_start && o.buffer.used == o_used && o.info.fwd_cnt == 0, "C18: recv touched another connection");
-    assert!(m.recv(VsockAddr { cid: 3, port: 8 }, 9, &mut out) == Err(Error::SocketDeviceError(SocketError::NotConnected)), "C18: unknown connection must be 'not connected'");
+    assert!(o.buffer.start == o_start && o.buffer.used == o_used && o.info == other0, "C18: recv touched another connection");
+    // no connection uses local port 10
+    assert!(m.recv(a, 10, &mut out) == Err(Error::SocketDeviceError(SocketError::NotConnected)), "C18: unknown connection must be 'not connected'");
 }
